@@ -54,11 +54,11 @@ EXHAUSTIVE_NOTE = "all command sequences up to length 4 (quick) / 6 (thorough) o
 def budget(tier):
     if tier == "quick":
         return {"examples": 3000, "shards": 16}
-    return {"examples": 40000, "shards": 16}
+    return {"examples": 200000, "shards": 16}
 
 
 def strategy(tier):
-    body = st.lists(st.sampled_from(ALPHABET), min_size=1, max_size=10)
+    body = st.lists(st.sampled_from(ALPHABET), min_size=1, max_size=10 if tier == "quick" else 18)
     cmds = st.one_of(body, body.map(lambda b: ["init"] + b), body.map(lambda b: ["init"] + b))
     return st.fixed_dictionaries({"variant": st.integers(0, 1), "cmds": cmds})
 
